@@ -185,7 +185,7 @@ PROPS = {
     "C19": dict(
         vfiles=["Props/C19"],
         technique="Coq proof of the bookkeeping (receiver invariant over every traffic prefix: held <= announced <= 4096, released on delivery / reassembly error, body buffer <= announced length <= 255); heap bytes measured by a counting allocator after every poll and checked against 96 + 40 * announced(model)",
-        level_text="Theorems C19_bound_bytes / C19_bound_can (after any prefix of any traffic the receiver holds at most the announced frame count <= 4096), C19_released, C19_body_bound. "
+        level_text="Theorems C19_bound_bytes / C19_bound_can (after any prefix of any traffic the receiver holds at most the announced frame count <= 4096), C19_released, C19_body_bound; C19_bound_tokens_usart / _serial / _can (the same bound after every poll of EVERY raw device script: truncated link frames, faults inside frames, any arrangement of tokens); C19_checker_accepts_model_usart / _serial / _can: the extracted checker provably accepts the model's observation of every such script. "
                    "PARTIAL for bytes: the allocator (Vec capacities, size_of::<Frame>() = 18) is outside the model; the check measures live heap after every poll and compares it with the proved bound on held frames.",
         level_note=NOTE_COMMON + " Heap bytes are measured, not proved.",
         streams=[dict(RCV, view="view_C19", ok="ok_C19")],
